@@ -160,7 +160,9 @@ def run_merge(task):
             plan[v] = {}
             for fi in range(nfiles):
                 if I.branch(I.fresh_bool('rep_%d_%d' % (v, fi))):
-                    n = 2 if I.branch(I.fresh_bool('two_%d_%d' % (v, fi))) else 1
+                    # two violations per (validator, file) only in the smaller shapes: with 3 validators x 3 files the
+                    # path count (54^3 x the twin choice) passes the path bound
+                    n = 2 if (nvalidators * nfiles < 9 and I.branch(I.fresh_bool('two_%d_%d' % (v, fi)))) else 1
                     plan[v][fi] = list(range(vid, vid + n))
                     vid += n
         # twins: two violations with the same code and the same range in one file (two nested blocks that
